@@ -11,6 +11,10 @@ CLAIMS = {
          "Proof over a finite obligation set: for zerocopy types the serialised form is the memory image, so rustc's layout_of facts (offsets, widths, big-endian leaf types, alignment 1), the enum discriminants, the literal action codes of every writer, the dispatch tables of both parsers and the complete path table of Request::parse_bytes decide the wire format for all field values.",
          "Trusted: rustc layout computation, zerocopy IntoBytes/FromBytes/TryFromBytes, byteorder; not decided: Vec payload round trip through zerocopy slice casts.",
          "DESIGN.md section 2, C13"),
+ "C10": ("decision tables of the deadline functions + dataflow origin of every cleaning predicate, clock sample and stored deadline",
+         "Proof over listed obligations: ValidUntil::valid is exactly `deadline > now` and the constructors exactly `clock sample + offset` (complete decision tables of loop-free functions); each of the six retain predicates over peers / pending offers returns exactly valid(now) of the retained element, `now` is chased through all callers to one seconds_elapsed() sample of the tracker's single ServerStartInstant, and every non-stopped announce path stores a deadline whose origin is ValidUntil::new(start, max_peer_age) (max_offer_age for offers).",
+         "Trusted: retain semantics of indexmap/arrayvec, std Instant; not decided: when the timer fires (cadence of cleaning passes).",
+         "DESIGN.md section 2, C10"),
 }
 
 PENDING_REASON = "check under construction in this build phase (static rules designed in DESIGN.md section 2); not claimed until its rule set is validated both ways"
